@@ -1,6 +1,7 @@
 //! Shared machinery of the verification harness.  Nothing in here depends on a `yui` crate:
 //! the reference models must stay independent of the code they judge.
 pub mod bfs;
+pub mod reflink;
 pub mod refmat;
 pub mod refnum;
 pub mod run;
